@@ -124,6 +124,13 @@ func Finalizing(ctx interface{}) error {
 			return nil
 		}
 
+		// the job store is node-local: a witness that lacks the broadcast job (it was restarted, or became
+		// a witness, after the tracker left state New) must still apply the same consensus transition as
+		// every other node, so a missing local job is not an error of the transition
+		if _, err := context.JobStore.GetJob(tracker.GetJobID(ethereum.BusyBroadcasting)); err != nil {
+			return nil
+		}
+
 		bjob, err := context.JobStore.GetJob(tracker.GetJobID(ethereum.BusyBroadcasting))
 		if err != nil {
 			return errors.Wrap(err, "failed to get job")
